@@ -501,3 +501,221 @@ def corr_limiters(rng, n_dense=40, names=None):
         if not close(float(a), b, 1e-16):
             rep.bad("fsign", {"x": x}, {"impl": float(a), "model": b})
     return rep
+
+
+# ------------------------------------------------------------------ assembly (C04, C07, C12)
+
+def rand_term_list(rng, mc, phi, allow=("diffusion", "convection", "upwind", "linsrc", "constsrc", "transient", "divergence", "tvd"),
+                   nterms=None, posD=False):
+    """returns (python term list, driver sections, description)"""
+    import io, contextlib
+    k = nterms or rng.choice([1, 2, 3, 4])
+    terms, secs, desc = [], [], []
+    for _ in range(k):
+        name = rng.choice(list(allow))
+        scale = rng.choice([1.0, -1.0, 1.0, -1.0, 2.0, -0.5])
+        if name == "diffusion":
+            arrs = rand_face_arrays(rng, mc, "pos" if posD else None)
+            t = pf.diffusionTerm(make_facevar(mc, arrs))
+            terms.append(scale * t if scale != -1.0 else -t)
+            secs += [f"diffusion {q(scale)}"] + face_sections(mc, arrs)
+            desc.append({"term": name, "scale": scale, "face": [a.tolist() for a in arrs]})
+        elif name == "convection":
+            arrs = rand_face_arrays(rng, mc)
+            t = pf.convectionTerm(make_facevar(mc, arrs))
+            terms.append(scale * t if scale != -1.0 else -t)
+            secs += [f"convection {q(scale)}"] + face_sections(mc, arrs)
+            desc.append({"term": name, "scale": scale, "face": [a.tolist() for a in arrs]})
+        elif name == "upwind":
+            arrs = rand_face_arrays(rng, mc)
+            same = rng.random() < 0.6
+            arrs2 = arrs if same else rand_face_arrays(rng, mc)
+            fv = make_facevar(mc, arrs)
+            t = pf.convectionUpwindTerm(fv) if same else pf.convectionUpwindTerm(fv, make_facevar(mc, arrs2))
+            terms.append(scale * t if scale != -1.0 else -t)
+            secs += [f"upwind {q(scale)}"] + face_sections(mc, arrs) + face_sections(mc, arrs2)
+            desc.append({"term": name, "scale": scale, "face": [a.tolist() for a in arrs], "face_upwind": [a.tolist() for a in arrs2]})
+        elif name == "linsrc":
+            b = pf.CellVariable(mc.m, rand_vals(rng, mc.shape(), "pos"))
+            t = pf.linearSourceTerm(b)
+            terms.append(scale * t if scale != -1.0 else -t)
+            secs += [f"linsrc {q(scale)}", qs(np.asarray(b._value))]
+            desc.append({"term": name, "scale": scale, "beta": np.asarray(b.value).tolist()})
+        elif name == "constsrc":
+            g = pf.CellVariable(mc.m, rand_vals(rng, mc.shape()))
+            t = pf.constantSourceTerm(g)
+            terms.append(scale * t if scale != -1.0 else -t)
+            secs += [f"constsrc {q(scale)}", qs(np.asarray(g._value))]
+            desc.append({"term": name, "scale": scale, "gamma": np.asarray(g.value).tolist()})
+        elif name == "transient":
+            dt = rng.choice([1e-3, 0.1, 1.0, 100.0])
+            if rng.random() < 0.5:
+                al = rng.choice([1.0, 2.0, 0.5]); alobj = al
+                alarr = np.full(mc.gshape(), al)
+            else:
+                alobj = pf.CellVariable(mc.m, rand_vals(rng, mc.shape(), "pos"))
+                alarr = np.asarray(alobj._value)
+            t = pf.transientTerm(phi, dt, alobj)
+            terms.append(t)          # pairs cannot be scaled
+            secs += ["transient 1", qs(np.asarray(phi._value)), qs(alarr), q(dt)]
+            desc.append({"term": name, "dt": dt, "alpha": np.asarray(alarr).tolist()})
+        elif name == "divergence":
+            arrs = rand_face_arrays(rng, mc)
+            t = pf.divergenceTerm(make_facevar(mc, arrs))
+            terms.append(scale * t if scale != -1.0 else -t)
+            secs += [f"divergence {q(scale)}"] + face_sections(mc, arrs)
+            desc.append({"term": name, "scale": scale, "face": [a.tolist() for a in arrs]})
+        elif name == "tvd":
+            arrs = rand_face_arrays(rng, mc)
+            lim = rng.choice(LIMITERS)
+            with contextlib.redirect_stdout(io.StringIO()):
+                FL = pf.fluxLimiter(lim)
+            t = pf.convectionTVDupwindRHSTerm(make_facevar(mc, arrs), phi, FL)
+            terms.append(scale * t if scale != -1.0 else -t)
+            secs += [f"tvd {q(scale)}"] + face_sections(mc, arrs) + face_sections(mc, arrs) + [qs(np.asarray(phi._value)), f"{lim} {q(2e-16)} {q(EPS1)}"]
+            desc.append({"term": name, "scale": scale, "limiter": lim, "face": [a.tolist() for a in arrs]})
+    return terms, secs, desc
+
+
+class Recorder:
+    """externalsolver that records the system and solves it with SuperLU"""
+
+    def __init__(self):
+        self.calls = []
+
+    def __call__(self, M, RHS):
+        from scipy.sparse.linalg import spsolve
+        x = spsolve(M, RHS)
+        self.calls.append((csr_array(M).copy(), np.array(RHS, dtype=float, copy=True), np.array(x, dtype=float, copy=True)))
+        return x
+
+
+def corr_assemble(rng, ncases, kinds=None, nmax=3, allow=None, well_posed=False):
+    """the system solvePDE hands to the solver vs the model's assembled system; exact residual of the float solution"""
+    rep = Report("assemble")
+    drv = Driver()
+    pend = []
+    for t in range(ncases):
+        kind = (kinds or KINDS)[t % len(kinds or KINDS)]
+        mc = rand_mesh(rng, kind, nmax=nmax)
+        spec = rand_bc_spec(rng, mc, kinds=("dirichlet", "neumann", "robin", "default") if well_posed else
+                            ("dirichlet", "neumann", "robin", "robinarr", "default"))
+        vals = rand_vals(rng, mc.shape())
+        case = {"mesh": mc.describe(), "bc": bc_describe(spec), "interior": vals.tolist()}
+        try:
+            bc = make_bcs(mc, spec)
+            phi = pf.CellVariable(mc.m, vals.copy(), bc)
+            if not np.all(np.isfinite(np.asarray(phi._value))):
+                rep.count("singular-bc-skipped")      # ghost coefficient exactly zero: excluded point of C03
+                continue
+            if well_posed:
+                al = ("transient", "diffusion", "upwind", "linsrc", "constsrc")
+                terms, secs, desc = rand_term_list(rng, mc, phi, allow=("transient",), nterms=1)
+                t2, s2, d2 = rand_term_list(rng, mc, phi, allow=allow or al, posD=True)
+                # keep diffusion negative-definite: force sign conventions of a well-posed problem
+                terms += t2; secs += s2; desc += d2
+            else:
+                terms, secs, desc = rand_term_list(rng, mc, phi, allow=allow or ("diffusion", "convection", "upwind", "linsrc", "constsrc", "transient", "divergence", "tvd"))
+            case["terms"] = desc
+            bsecs = bc_sections_from_obj(mc, bc)
+            rec = Recorder()
+            out = pf.solvePDE(phi, terms, externalsolver=rec)
+        except Exception as ex:
+            rep.cases += 1
+            rep.bad("exception", case, {"error": repr(ex)})
+            continue
+        M, RHS, x = rec.calls[-1]
+        i = drv.add("assemble", mc, bsecs + secs)
+        j = drv.add("bcterm", mc, bsecs)
+        finite = bool(np.all(np.isfinite(x)))
+        kres = drv.add("residual", mc, bsecs + [qs(x)] + secs) if finite else None
+        pend.append((i, j, kres, mc, case, M, RHS, x, out is phi, len(rec.calls), spec, [d["term"] for d in desc]))
+    replies = drv.run()
+    for i, j, kres, mc, case, M, RHS, x, same_obj, ncalls, spec, tnames in pend:
+        rep.cases += 1
+        rep.sig(mc.kind, tuple(mc.dims), tuple(sorted(tnames)), bc_sig(spec))
+        rep.count(mc.kind)
+        for nm in tnames:
+            rep.count("term/" + nm)
+        if not same_obj:
+            rep.bad("returned-object", case, {"error": "solvePDE did not return the variable it was given"})
+        if ncalls != 1:
+            rep.bad("solver-calls", case, {"calls": ncalls})
+        # interior rows
+        rows, stray_all = rows_from_matrix(mc, M)
+        inter = {gflat(mc, c) for c in interior_cells(mc)}
+        stray = [s for s in stray_all if s[0] in inter]
+        if stray:
+            rep.bad("stray-nonzero", case, {"entries": stray[:5]})
+        vals_ = parse_vals(replies[i])
+        n = len(rows)
+        if len(vals_) != 8 * n:
+            rep.bad("assemble-length", case, {"impl": 8 * n, "model": len(vals_)})
+        else:
+            rhs_i = [float(RHS[gflat(mc, c)]) for c in interior_cells(mc)]
+            for r in range(n):
+                mrow = vals_[8 * r:8 * r + 7]; mrhs = vals_[8 * r + 7]
+                sc = max([abs(v) for v in rows[r] if math.isfinite(v)] + [abs(v) for v in mrow if v is not None] + [abs(rhs_i[r]), abs(mrhs or 0.0)])
+                bad = [k for k in range(7) if not close(rows[r][k], mrow[k], sc)]
+                rep.values += 8
+                if bad or not close(rhs_i[r], mrhs, sc):
+                    rep.bad("assemble-row", case, {"cell": r, "impl_row": rows[r], "model_row": mrow, "impl_rhs": rhs_i[r], "model_rhs": mrhs})
+                    break
+        compare_bcterm(rep, mc, case, (csr_array(M), RHS), replies[j]) if False else None
+        # ghost rows of the assembled system = boundary rows (terms never touch them)
+        A = csr_array(M)
+        ghost_case = dict(case)
+        _compare_ghost_rows(rep, mc, ghost_case, A, RHS, replies[j], inter)
+        if kres is not None:
+            res = parse_vals(replies[kres])
+            rep.values += 1
+            # the float solution must satisfy the model's system to rounding unless the system is (near) singular
+            if res and res[0] is not None and res[0] > 1e-6:
+                import numpy.linalg as la
+                try:
+                    cond = la.cond(A.toarray())
+                except Exception:
+                    cond = float("inf")
+                if cond < 1e8:
+                    rep.bad("residual", case, {"relative_residual": res[0], "worst_flat_index": res[1] if len(res) > 1 else None, "cond": float(cond),
+                                               "x": [float(v) for v in x][:80]})
+                else:
+                    rep.count("ill-conditioned-skipped")
+        else:
+            rep.count("non-finite-solution-skipped")
+        if len(rep.samples) < 2:
+            rep.samples.append(case)
+    return rep
+
+
+def _compare_ghost_rows(rep, mc, case, A, RHS, reply, inter):
+    toks = reply.split()
+    if toks and toks[0] == "reject-radial-periodic":
+        rep.bad("bcterm-accepted-radial-periodic", case, {})
+        return
+    D = A.toarray()
+    pos = 0
+    for c in all_cells(mc):
+        g = gflat(mc, c)
+        if g in inter:
+            continue
+        try:
+            k = int(toks[pos]); pos += 1
+            ents = {}
+            for _ in range(k):
+                col, val = toks[pos].split(":"); pos += 1
+                ents[int(col)] = float(Fraction(val))
+            rhs = float(Fraction(toks[pos])); pos += 1
+        except Exception:
+            rep.bad("bcterm-parse", case, {"reply": reply[:200]})
+            return
+        row = D[g]
+        sc = max([abs(v) for v in row if math.isfinite(v)] + [abs(v) for v in ents.values()] + [abs(rhs), abs(RHS[g])])
+        for col in set(int(v) for v in np.nonzero(row)[0]) | set(ents):
+            rep.values += 1
+            if not close(float(row[col]), ents.get(col, 0.0), sc):
+                rep.bad("assembled-ghost-row", case, {"ghost_cell": list(c), "col": col, "impl": float(row[col]), "model": ents.get(col, 0.0)})
+                return
+        if not close(float(RHS[g]), rhs, sc):
+            rep.bad("assembled-ghost-rhs", case, {"ghost_cell": list(c), "impl": float(RHS[g]), "model": rhs})
+            return
